@@ -2,11 +2,13 @@
 //! host: src/extract/with_ord.rs
 //! Bound: AstSize::cost on nodes with 0..4 children and child costs from {0, 1, 2, 7, u64::MAX-1, u64::MAX};
 //! WithOrdRev::partial_cmp / cmp on all pairs of costs from {0, 1, 2, 3, 10, u64::MAX}.
-//! Extractor::new / Extractor::extract (outside the contracts: BinaryHeap, class_nf, usages): 6 hand-written e-graphs
-//! with redundant slots / symmetric classes plus 300 (deep: 3000) pseudo-random ones (a term of depth <= 3 over a
-//! lambda/arithmetic language, a random subset of 16 rules, <= 3 rounds, <= 300 nodes); after every round EVERY class is
-//! extracted with AstSize: the term must look up to the class it was extracted from and its size must equal the
-//! least cost computed by an independent fixpoint over `enodes` (Bellman-Ford, no heap, no class_nf).
+//! Extractor::new / Extractor::extract (outside the contracts: BinaryHeap, class_nf, usages): 9 hand-written e-graphs
+//! with redundant slots / symmetric classes plus 150 (deep: 3000) pseudo-random ones (a term of depth <= 3 over a
+//! lambda/arithmetic language, a random subset of 17 rules, <= 3 rounds, <= 300 nodes); after every round EVERY class is
+//! extracted with AstSize (public entry point) and with three cost functions of the kinds C06 names (size, depth-weighted
+//! size 1 + 2*children, per-operator weights where a constant can be heavier than a composite term): the term must look
+//! up to the class it was extracted from, its recomputed cost must equal the reported best cost and the least cost
+//! computed by an independent fixpoint over `enodes` (Bellman-Ford, no heap, no class_nf).
 //! also-with-features: checks
 use crate::*;
 use super::*;
@@ -55,7 +57,7 @@ fn xterm(r: &mut Rng, depth: u32, ns: u64) -> String {
         _ => v(r),
     }
 }
-const XRULES: [(&str, &str, &str); 16] = [
+const XRULES: [(&str, &str, &str); 17] = [
     ("beta", "(app (lam $1 ?b) ?t)", "(let $1 ?b ?t)"),
     ("let-var-same", "(let $1 (var $1) ?e)", "?e"),
     ("sub-self", "(sub ?a ?a)", "zero"),
@@ -72,24 +74,45 @@ const XRULES: [(&str, &str, &str); 16] = [
     ("subst-beta", "(app (lam $1 ?b) ?t)", "?b[(var $1) := ?t]"),
     ("g-intro", "(sub ?a ?b)", "(g (sub ?a ?b))"),
     ("g-elim", "(g (g ?a))", "?a"),
+    // gives a class that holds a constant AND a composite term that is cheaper under the per-operator weights
+    ("zero-alt", "zero", "(g one)"),
 ];
-fn re_size(re: &RecExpr<XL>) -> u64 { 1 + re.children.iter().map(re_size).sum::<u64>() }
-/// least AstSize cost per class by a plain fixpoint over the e-nodes (independent of Extractor)
-fn reference_costs(eg: &XG) -> std::collections::HashMap<Id, u64> {
+/// cost functions of the three kinds C06 names; all are `own(node) + mult * sum(children)`, strictly monotone
+#[derive(Clone, Copy, Debug)]
+struct Lin { name: &'static str, mult: u64, weighted: bool }
+impl Lin {
+    fn own(&self, n: &XL) -> u64 {
+        if !self.weighted { return 1; }
+        // a constant may be heavier than a composite term
+        match n { XL::Zero() => 10, XL::One() => 4, XL::Var(_) => 5, XL::Mul(..) => 2, XL::Sub(..) => 3, XL::Lam(..) => 2, _ => 1 }
+    }
+}
+impl CostFunction<XL> for Lin {
+    type Cost = u64;
+    fn cost<C>(&self, enode: &XL, costs: C) -> u64 where C: Fn(Id) -> u64 {
+        let mut s = self.own(enode);
+        for x in enode.applied_id_occurrences() { s = s.saturating_add(self.mult.saturating_mul(costs(x.id))); }
+        s
+    }
+}
+const COSTS: [Lin; 3] = [Lin { name: "AstSize-like", mult: 1, weighted: false }, Lin { name: "depth-weighted (1 + 2*children)", mult: 2, weighted: false }, Lin { name: "per-operator weights", mult: 1, weighted: true }];
+/// least cost per class by a plain fixpoint over the e-nodes (independent of Extractor)
+fn reference_costs(eg: &XG, cf: &Lin) -> std::collections::HashMap<Id, u64> {
     let mut cost: std::collections::HashMap<Id, u64> = Default::default();
     loop {
         let mut changed = false;
         for i in eg.ids() { for n in eg.enodes(i) {
-            let mut c: u64 = 1; let mut known = true;
-            for ch in n.applied_id_occurrences() { match cost.get(&eg.find_id(ch.id)) { Some(x) => c = c.saturating_add(*x), None => known = false } }
+            let mut c: u64 = cf.own(&n); let mut known = true;
+            for ch in n.applied_id_occurrences() { match cost.get(&eg.find_id(ch.id)) { Some(x) => c = c.saturating_add(cf.mult.saturating_mul(*x)), None => known = false } }
             if known && cost.get(&i).map(|x| c < *x).unwrap_or(true) { cost.insert(i, c); changed = true; }
         }}
         if !changed { return cost; }
     }
 }
 fn extraction_ok(eg: &XG) -> Result<usize, String> {
-    let reference = reference_costs(eg);
     let mut k = 0;
+    // the crate's own AstSize through the public entry point
+    let reference = reference_costs(eg, &COSTS[0]);
     for i in eg.ids() {
         let a = eg.mk_identity_applied_id(i);
         let t = ast_size_extract(&a, eg);
@@ -99,11 +122,28 @@ fn extraction_ok(eg: &XG) -> Result<usize, String> {
             Some(b) => if !eg.eq(&a, &b) { return Err(format!("C06:extract.member class {:?}: the extracted term {} denotes {:?}, not {:?}", i, t, b, a)); }
         }
         let want = reference.get(&i).cloned();
-        if Some(re_size(&t)) != want { return Err(format!("C06:extract.cheapest class {:?}: the extracted term {} has size {}, the least size of a term of the class is {:?}", i, t, re_size(&t), want)); }
+        if Some(AstSize.cost_rec(&t)) != want { return Err(format!("C06:extract.cheapest class {:?} (AstSize): the extracted term {} costs {}, the least cost of a term of the class is {:?}", i, t, AstSize.cost_rec(&t), want)); }
+    }
+    for cf in COSTS {
+        let reference = reference_costs(eg, &cf);
+        let ex = Extractor::<XL, Lin>::new(eg, cf);
+        for i in eg.ids() {
+            let a = eg.mk_identity_applied_id(i);
+            let t = ex.extract(&a, eg);
+            k += 1;
+            match crate::lookup_rec_expr(&t, eg) {
+                None => return Err(format!("C06:extract.member class {:?} ({}): the extracted term {} is not in the e-graph", i, cf.name, t)),
+                Some(b) => if !eg.eq(&a, &b) { return Err(format!("C06:extract.member class {:?} ({}): the extracted term {} denotes {:?}, not {:?}", i, cf.name, t, b, a)); }
+            }
+            let got = cf.cost_rec(&t);
+            let best = ex.get_best_cost::<()>(&a);
+            if got != best { return Err(format!("C06:extract.cost-agrees class {:?} ({}): the extracted term {} costs {} but the reported best cost is {}", i, cf.name, t, got, best)); }
+            let want = reference.get(&i).cloned();
+            if Some(got) != want { return Err(format!("C06:extract.cheapest class {:?} ({}): the extracted term {} costs {}, the least cost of a term of the class is {:?}", i, cf.name, t, got, want)); }
+        }
     }
     Ok(k)
 }
-
 pub fn run(only: &[String]) -> Vec<String> {
     let mut fails = Vec::new();
     let want = |f: &str| only.is_empty() || only.iter().any(|x| x == f);
@@ -134,6 +174,10 @@ pub fn run(only: &[String]) -> Vec<String> {
             (vec!["(lam $1 (mul (var $1) (var $2)))", "(lam $1 (mul (var $1) (var $3)))"], vec![(0, 1)]),
             (vec!["(add (sub (var $1) (var $1)) (var $2))", "(g one)", "(sub (var $3) (var $3))"], vec![(1, 2)]),
             (vec!["(g (f3 (var $4) (var $2) (var $3)))", "(f3 (var $1) (var $4) (var $2))"], vec![(0, 1)]),
+            // a constant together with a composite term that is cheaper under the per-operator weights, and classes above it
+            (vec!["zero", "(g one)"], vec![(0, 1)]),
+            (vec!["(add zero (var $1))", "zero", "(g (g one))"], vec![(1, 2)]),
+            (vec!["(sub (var $1) (var $1))", "zero", "(g one)", "(mul (sub (var $2) (var $2)) (var $3))"], vec![(0, 1), (1, 2)]),
         ];
         for (adds, unions) in hand {
             verif_case(format!("extract after: add {:?}; union {:?}", adds, unions));
@@ -142,13 +186,13 @@ pub fn run(only: &[String]) -> Vec<String> {
             for (a, b) in &unions { eg.union(&ids[*a], &ids[*b]); }
             if let Err(e) = extraction_ok(&eg) { if n < 3 { n += 1; let (c, m) = e.split_once(' ').unwrap(); fails.push(format!("FAIL Extractor::extract {} after add {:?}; union {:?}: {}", c, adds, unions, m)); } }
         }
-        let seeds: u64 = if deep { 3000 } else { 300 };
+        let seeds: u64 = if deep { 3000 } else { 150 };
         for seed in 1..=seeds {
             let mut r = Rng(seed.wrapping_mul(0x9E3779B97F4A7C15).wrapping_add(1));
             let t = xterm(&mut r, 3, 3);
-            let mask = r.next(1 << 16);
-            let used: Vec<&str> = (0..16).filter(|i| mask & (1 << i) != 0).map(|i| XRULES[i].0).collect();
-            let rws: Vec<Rewrite<XL, ()>> = (0..16).filter(|i| mask & (1 << i) != 0).map(|i| Rewrite::new(XRULES[i].0, XRULES[i].1, XRULES[i].2)).collect();
+            let mask = r.next(1 << 17);
+            let used: Vec<&str> = (0..17).filter(|i| mask & (1 << i) != 0).map(|i| XRULES[i].0).collect();
+            let rws: Vec<Rewrite<XL, ()>> = (0..17).filter(|i| mask & (1 << i) != 0).map(|i| Rewrite::new(XRULES[i].0, XRULES[i].1, XRULES[i].2)).collect();
             let mut eg = XG::default();
             eg.add_expr(RecExpr::<XL>::parse(&t).unwrap());
             for round in 0..3 {
